@@ -309,6 +309,7 @@ class Interp:
         self.on_attr_read = None
         self.on_attr_store = None
         self.update_params_checks = []
+        self.stmt_hook = None
 
     # ---- events
     def event(self, kind, node, msg, **detail):
@@ -423,17 +424,23 @@ class Interp:
             self.eval(st.value, fr)
             return
         if isinstance(st, ast.Assign):
+            ev0 = len(self.events)
             v = self.eval(st.value, fr)
             for t in st.targets:
                 self.assign(t, v, fr, st)
+            if self.stmt_hook:
+                self.stmt_hook(st, fr, v, self.events[ev0:])
             return
         if isinstance(st, ast.AnnAssign):
             if st.value is not None:
                 self.assign(st.target, self.eval(st.value, fr), fr, st)
             return
         if isinstance(st, ast.AugAssign):
+            ev0 = len(self.events)
             cur = self.eval(_as_load(st.target), fr)
             val = self.eval(st.value, fr)
+            if self.stmt_hook:
+                self.stmt_hook(st, fr, cur, self.events[ev0:])
             if isinstance(st.op, ast.MatMult):
                 res = self.matmul(cur, val, st)
             elif isinstance(cur, Lst) and isinstance(val, Lst) and isinstance(st.op, ast.Add):
